@@ -6,6 +6,7 @@ import (
 	"context"
 	"fmt"
 	"io"
+	"math"
 	"net/http"
 	"net/http/httptest"
 	"regexp"
@@ -403,6 +404,88 @@ func streamNeg(c *Ctx) {
 	}
 	poolIsolationProbe(c)
 	failingCompressorProbe(c)
+	hugeLimitLosslessProbe(c)
+}
+
+// hugeLimitLosslessProbe: every compressed message decompresses to the original bytes - also
+// when the receiver's read limit is the largest there is (nothing wraps around), on either side.
+func hugeLimitLosslessProbe(c *Ctx) {
+	payload := bytes.Repeat([]byte{3, 3, 3, 9}, 60)
+	for _, proto := range []string{"connect", "grpc", "grpcweb"} {
+		for _, kind := range []string{"unary", "server"} {
+			for _, side := range []string{"handler", "client"} {
+				for _, limit := range []int{math.MaxInt64, math.MaxInt64 - 1} {
+					desc := fmt.Sprintf("%s %s call, rle in both directions, read limit %d on the %s", proto, kind, limit, side)
+					c.Count("huge-limit-lossless-probe")
+					got := safely(func() string {
+						hopts := []connect.HandlerOption{connect.WithCodec(rawCodec{"raw"}), connect.WithCompression("rle", newRLEDecompressor, newRLECompressor)}
+						copts := []connect.ClientOption{connect.WithCodec(rawCodec{"raw"}), connect.WithAcceptCompression("rle", newRLEDecompressor, newRLECompressor), connect.WithSendCompression("rle")}
+						if side == "handler" {
+							hopts = append(hopts, connect.WithReadMaxBytes(limit))
+						} else {
+							copts = append(copts, connect.WithReadMaxBytes(limit))
+						}
+						if proto == "grpc" {
+							copts = append(copts, connect.WithGRPC())
+						} else if proto == "grpcweb" {
+							copts = append(copts, connect.WithGRPCWeb())
+						}
+						var seen []byte
+						var h *connect.Handler
+						if kind == "unary" {
+							h = connect.NewUnaryHandler("/s/m", func(ctx context.Context, r *connect.Request[[]byte]) (*connect.Response[[]byte], error) {
+								seen = append([]byte{}, (*r.Msg)...)
+								out := append([]byte{}, payload...)
+								return connect.NewResponse(&out), nil
+							}, hopts...)
+						} else {
+							h = connect.NewServerStreamHandler("/s/m", func(ctx context.Context, r *connect.Request[[]byte], s *connect.ServerStream[[]byte]) error {
+								seen = append([]byte{}, (*r.Msg)...)
+								out := append([]byte{}, payload...)
+								return s.Send(&out)
+							}, hopts...)
+						}
+						srv := httptest.NewUnstartedServer(h)
+						srv.EnableHTTP2 = true
+						srv.StartTLS()
+						defer srv.Close()
+						cl := connect.NewClient[[]byte, []byte](srv.Client(), srv.URL+"/s/m", copts...)
+						in := append([]byte{}, payload...)
+						var back []byte
+						if kind == "unary" {
+							res, err := cl.CallUnary(context.Background(), connect.NewRequest(&in))
+							if err != nil {
+								return "call failed: " + err.Error()
+							}
+							back = *res.Msg
+						} else {
+							st, err := cl.CallServerStream(context.Background(), connect.NewRequest(&in))
+							if err != nil {
+								return "call failed: " + err.Error()
+							}
+							for st.Receive() {
+								back = append([]byte{}, (*st.Msg())...)
+							}
+							if st.Err() != nil {
+								return "stream failed: " + st.Err().Error()
+							}
+							st.Close()
+						}
+						if !bytes.Equal(seen, payload) {
+							return fmt.Sprintf("the handler received %d bytes instead of the %d sent", len(seen), len(payload))
+						}
+						if !bytes.Equal(back, payload) {
+							return fmt.Sprintf("the client received %d bytes instead of the %d sent", len(back), len(payload))
+						}
+						return "ok"
+					})
+					if got != "ok" {
+						c.Fail("neg-lossless", desc, got, "a compressed message did not arrive as the original bytes")
+					}
+				}
+			}
+		}
+	}
 }
 
 // failingRLECompressor fails on Close for inputs of exactly 300 bytes (a quota, a broken
